@@ -851,6 +851,9 @@ def hostile_store():
         steps.append(step_add(ev(i % 3, 1, 300 + i, [[n, "v"]], content="n%d" % i)))
     steps.append(step_add(ev(0, 1, 400, [["t"]], content="bare")))
     steps.append(step_add(ev(0, 1, 401, [["t", ""]], content="empty")))
+    # tag values that differ in letter case only are different values
+    for i, v in enumerate(["Bitcoin", "bitcoin", "BITCOIN", "\u00c4pfel", "\u00e4pfel"]):
+        steps.append(step_add(ev(i % 3, 1, 405 + i, [["t", v], ["d", v]], content="case%d" % i)))
     # long tag values (an index that truncates them must not make their prefixes match)
     for i, n in enumerate(LONG_LENGTHS):
         steps.append(step_add(ev(i % 3, 1, 410 + i, [["t", "L" * n]], content="long%d" % n)))
@@ -894,6 +897,9 @@ def hostile_reqs(tier):
             reqs.append([{"ids": [base + tail], "kinds": [1]}])
             reqs.append([{"authors": [base + tail]}])
             reqs.append([{"authors": [base + tail], "kinds": [1]}])
+    for v in ("Bitcoin", "bitcoin", "BITCOIN", "bitCoin", "\u00c4pfel", "\u00e4pfel"):
+        reqs.append([{"#t": [v]}])
+        reqs.append([{"#d": [v], "kinds": [1]}])
     for n in LONG_LENGTHS:
         for m in (n - 1, n, n + 1):
             reqs.append([{"#t": ["L" * m]}])
